@@ -450,6 +450,32 @@ func genC05(c *Ctx) {
 			}
 		}
 	}
+	// share counts whose mountain range has MORE roots than the threshold (the trailing mountains overflow it):
+	// found by enumeration for every threshold; the smallest two per threshold, plus 255 shares for 64
+	for _, thr := range thresholds {
+		found := 0
+		for n := 2; n <= 300 && found < 2; n++ {
+			w := refSubtreeWidth(n, thr)
+			roots := n / w
+			for rest := n % w; rest > 0; rest &= rest - 1 {
+				roots++
+			}
+			if roots > thr {
+				if thr == 64 && found == 1 {
+					break
+				}
+				found++
+				for ver := uint8(0); ver <= 1; ver++ {
+					dl := 478 + 482*(n-1) - 25 - int(ver)*0
+					if ver == 1 {
+						dl = 458 + 482*(n-1) - 5
+					}
+					addBlobCase(mk(dl, ver), thr, false)
+				}
+				c.count(fmt.Sprintf("roots_exceed_threshold_%d", thr))
+			}
+		}
+	}
 	for i := 0; i < 6*c.scale; i++ {
 		// several KiB: 5-40 shares, so that chunks of different sizes occur
 		g := mk(2000+r.Intn(16000), uint8(r.Intn(2)))
